@@ -629,6 +629,11 @@ def gen_c19(rng: random.Random, tier: str) -> Plan:
                     "loss": rng.choice(["tanh", "nll"]), "seed": _seed(rng)}
         return {"op": "reset", "target": rng.choice(m.names), "seed": _seed(rng)}
 
+    def quiet(o: dict[str, Any]) -> dict[str, Any]:
+        if rng.random() < 0.3:
+            o["quiet"] = True  # not observed: the next operation meets the state as the update left it
+        return o
+
     def save() -> dict[str, Any]:
         slot = f"s{rng.randrange(4)}"
         tgt = rng.choice(m.names) if rng.random() < 0.6 else rng.choice(bases)
@@ -648,8 +653,10 @@ def gen_c19(rng: random.Random, tier: str) -> Plan:
     n_ops = rng.randint(5, 12) if tier == "quick" else rng.randint(8, 26)
     for _ in range(n_ops):
         r = rng.random()
-        if r < 0.35:
-            ops.append(mutate())
+        if r < 0.33:
+            ops.append(quiet(mutate()))
+        elif r < 0.35:
+            ops.append({"op": "query", "target": rng.choice(m.names), "seed": _seed(rng)})
         elif r < 0.55:
             ops.append(save())
         elif r < 0.72:
@@ -673,7 +680,9 @@ def gen_c19(rng: random.Random, tier: str) -> Plan:
                         "batch": rng.choice([1, 2, 5, 5, 300, 1030]), "seed": _seed(rng)})
     if rng.random() < 0.75:
         # the canonical scenario: train, checkpoint, train on, crash, recompile, restore
-        ops.append(mutate())
+        ops.append(quiet(mutate()))
+        if rng.random() < 0.15:
+            ops.append({"op": "query", "target": rng.choice(m.names), "seed": _seed(rng)})
         ops.append(save())
         if rng.random() < 0.5:
             ops.append(save())
